@@ -7,21 +7,31 @@ from encode import encode, canon
 
 ID = 'C17'
 DOMAIN = 'exc'
-PROPS_FILES = ['Gin/Props/C17.lean']
+PROPS_FILES = ['Gin/Props/C17.lean', 'Gin/Props/C17b.lean']
 ANCHOR_FILES = ['utils.py', 'config.py']
 RULE = ('every exception class in `builtins` that can be instantiated from a table of constructor arguments (incl. '
         'exception groups and OSError subclasses selected by errno), plus generated user classes (required __init__ / '
         '__new__ arguments, extra attributes, __slots__, custom __str__, properties), raised at nesting depth 1-3 of '
-        'configurable calls or while a reference is evaluated for a configurable; the caught exception is compared with '
-        'the original: class, isinstance, catchability by the original except clause, args, every public non-callable '
-        'attribute, traceback frames, str() suffix; BaseException-only classes must pass through untouched. '
+        'configurable calls, while a reference is evaluated for a configurable or inside a gin.singleton constructor, plus '
+        'random call paths of depth 2-9 (helpers that enter scopes of their own, parameters bound by Gin on some levels, '
+        'required positional parameters supplied positionally / by keyword / by Gin, the entry called with a keyword or '
+        'positional argument, with and without an outer scope); the caught exception is compared with the original (class, '
+        'isinstance, catchability by the original except clause, args, every public non-callable attribute) and with the '
+        'model of the whole call path (Gin/ExcChain.lean): which object arrives, the exact text (original text + one message '
+        'per configurable, innermost first, with the missing-argument hint for a TypeError), the user frames of the '
+        'traceback; BaseException-only classes must pass through untouched; the missing-argument table (Python\'s own '
+        'TypeError for unsupplied positional parameters) is compared with the model text exactly. '
         'non-trivial = the class has a data attribute besides args or a constructor with required arguments; the builtin '
         'table is enumerated completely on every run')
 TRUSTED_BASE = ['Lean 4.33 kernel', 'axioms ⊆ {propext, Classical.choice, Quot.sound}', 'JSON glue (Gin/Drv)',
                 'harness props/c17.py', 'class creation, C-level slots, with_traceback are CPython\'s']
-ASSUMPTIONS = ['the model only fixes the attribute lookup order (data descriptors of the type, instance dict, __getattr__)',
+ASSUMPTIONS = ['attribute values are opaque to the model: it fixes the lookup order (data descriptors of the type, instance dict, forwarding) and the chain of proxies',
+               'whether an uninitialised instance of a subclass of the raised class can be made (cls.__new__(Sub, *args) / BaseException.__new__(Sub)) is a fact about Python measured by the harness on each class',
+               'repr() of the wrapped callables (memory addresses) is read from the run and handed to the model as opaque text',
                'a class whose constructor does not accept its own `args` may arrive as the original object, message unextended']
-EXPLANATION = ('Lean theorems about the attribute-lookup protocol of the proxy (forwarding proxy reads agree with the '
+EXPLANATION = ('Lean theorems about the whole call path, by induction over its depth (Props/C17b.lean: class_kept, attrs_agree, '
+               'message_extended, one_proxy_per_level, traceback_kept, non_exception_untouched, unbuildable_keeps_original) and '
+               'about the attribute-lookup protocol of the proxy (forwarding proxy reads agree with the '
                'original for every attribute; the non-forwarding construction provably loses slot-backed attributes) + '
                'exhaustive run over the builtin exception table and generated user classes on the real code.')
 
@@ -201,6 +211,13 @@ def run_missing_case(case):
   gin = core.fresh_gin()
   g = {'__name__': 'em'}
   exec('def needs(a, b, c=0):\n  return (a, b, c)\ndef consumer(v=None):\n  return v\n', g)  # pylint: disable=exec-used
+  n_args = case['nargs'] if case['via'] == 'call' else 0
+  raw, orig_str, cls_facts = g['needs'], None, None
+  try:
+    raw(*([1] * n_args))
+  except TypeError as e0:     # what Python itself says about this call: the text Gin extends
+    orig_str, cls_facts = str(e0), class_facts(e0)
+  reprs = {'needs': repr(raw)}
   needs = gin.configurable(g['needs'])
   consumer = gin.configurable(g['consumer'])
   if case['bound']:
@@ -223,10 +240,23 @@ def run_missing_case(case):
     facts['names_configurable'] = "In call to configurable 'needs'" in s
     facts['names_scope'] = (f"in scope '{case['scope']}'" in s) if case['scope'] else True
     facts['msg'] = s[:400]
+    facts['str'] = s
+    facts['type_ok'] = type(e).__name__ == 'TypeError' and type(e).__module__ == 'builtins'
   except Exception as e:  # pylint: disable=broad-except
     facts['raised'] = type(e).__name__
     facts['msg'] = str(e)[:300]
-  return {'facts': facts, 'orig': {}, 'is_exception': True}
+  return {'facts': facts, 'orig': {}, 'is_exception': True, 'reprs': reprs, 'orig_str': orig_str, 'cls_facts': cls_facts}
+
+
+def missing_levels(case, impl):
+  n_args = case['nargs'] if case['via'] == 'call' else 0
+  return [{'name': 'needs', 'repr': impl['reprs']['needs'], 'scope': case['scope'], 'posNames': ['a', 'b'], 'nArgs': n_args,
+           'kwNames': ['c'] if case['bound'] else [], 'ginBound': ['c'] if case['bound'] else [],
+           'callerSupplied': ['a', 'b'][:n_args], 'frames': []}]
+
+
+LEVEL_NAMES = ['leaf', 'mid', 'top', 'l4', 'l5', 'l6', 'l7', 'l8', 'l9']
+PARAMS = ['z', 'y', 'x', 'w4', 'w5', 'w6', 'w7', 'w8', 'w9']
 
 
 def gen_cases(rng, tier, boost=1):
@@ -238,6 +268,17 @@ def gen_cases(rng, tier, boost=1):
         yield dict(c, depth=depth, via=via)
     # raised by a configurable that is being run as the constructor of a gin.singleton
     yield dict(c, depth=1, via='singleton')
+    # longer call paths: any depth, helpers that enter a scope of their own before calling the next configurable,
+    # parameters bound by Gin on some levels, the entry called with a keyword or positional argument
+    for _ in range((1 if tier == 'quick' else 4) * boost):
+      depth = rng.randint(2, 9)
+      via = rng.choice(['call', 'call', 'reference', 'singleton'])
+      yield dict(c, depth=depth, via=via,
+                 nest=[None] + [rng.choice([None, None, 'n%d' % k, 'a/b']) for k in range(1, depth)],
+                 bind=sorted(rng.sample(range(depth), rng.randint(0, min(3, depth)))),
+                 entry=rng.choice([None, None, 'kw', 'pos']) if via == 'call' else None,
+                 req=[rng.choice([None, None, 'pos', 'kw', 'gin']) for k in range(depth - 1)] + [rng.choice([None, 'gin'])],
+                 outer=rng.choice(['sc', 'sc', 'sc/inner', '']))
 
 
 def _make(case):
@@ -284,24 +325,46 @@ def run_impl(case):
   gin = core.fresh_gin()
   cls, exc = _make(case)
   g = {'__name__': 'em', 'gin': gin, 'EXC': exc}
-  src = ('def leaf(z=0):\n  raise EXC\n'
-         'def helper_mid():\n  return leaf()\n'      # a plain (unconfigured) frame between two configurables
-         'def mid(y=None):\n  return helper_mid()\n'
-         'def helper_top():\n  return mid()\n'
-         'def top(x=None):\n  return helper_top()\n'
-         'def consumer(v=None):\n  return v\n')
+  depth = case['depth']
+  nest = case.get('nest') or [None] * depth
+  names = LEVEL_NAMES[:depth]
+  req = case.get('req') or [None] * depth
+  sig = lambda k, dflt: ('q, ' if req[k] else '') + f'{PARAMS[k]}={dflt}'   # a required positional parameter on some levels
+  src = f'def leaf({sig(0, 0)}):\n  raise EXC\n'
+  for k in range(1, depth):
+    inner, name = LEVEL_NAMES[k - 1], LEVEL_NAMES[k]
+    call = inner + {None: '()', 'gin': '()', 'pos': '(0)', 'kw': '(q=0)'}[req[k - 1]]
+    # a plain (unconfigured) frame between two configurables; it may enter a scope of its own
+    if nest[k]:
+      src += f'def helper_{name}():\n  with gin.config_scope({nest[k]!r}):\n    return {call}\n'
+    else:
+      src += f'def helper_{name}():\n  return {call}\n'
+    src += f'def {name}({sig(k, None)}):\n  return helper_{name}()\n'
+  src += 'def consumer(v=None):\n  return v\n'
   exec(src, g)  # pylint: disable=exec-used
-  for n in ('leaf', 'mid', 'top', 'consumer'):
+  reprs = {n: repr(g[n]) for n in names}
+  for n in names + ['consumer']:
     g[n] = gin.configurable(g[n])
-  entry = {1: 'leaf', 2: 'mid', 3: 'top'}[case['depth']]
+  for k in case.get('bind') or []:
+    gin.bind_parameter(f'em.{LEVEL_NAMES[k]}.{PARAMS[k]}', 5)
+  for k in range(depth):
+    if req[k] == 'gin':
+      gin.bind_parameter(f'em.{LEVEL_NAMES[k]}.q', 0)
+  entry = names[-1]
+  call_args, call_kwargs = (), {}
   if case['via'] == 'reference':
     gin.parse_config(f'em.consumer.v = @em.{entry}()')
     fn = g['consumer']
   elif case['via'] == 'singleton':
     gin.parse_config(f'em.consumer.v = @sx/gin.singleton()\nsx/gin.singleton.constructor = @em.{entry}')
     fn = g['consumer']
+    reprs['singleton'] = repr(gin.config._REGISTRY['gin.singleton'].wrapped)  # pylint: disable=protected-access
   else:
     fn = g[entry]
+    if case.get('entry') == 'kw':
+      call_kwargs = {PARAMS[depth - 1]: 1}
+    elif case.get('entry') == 'pos' and not req[depth - 1]:
+      call_args = (1,)
   orig = public_attrs(exc, gin)
   orig_str = None
   try:
@@ -314,18 +377,85 @@ def run_impl(case):
   except Exception:  # pylint: disable=broad-except
     ctor_ok = False
   res = {'ctor_accepts_args': ctor_ok, 'orig': orig, 'orig_args': encode(list(exc.args), gin) if not any(isinstance(a, (list,)) and a and isinstance(a[0], BaseException) for a in exc.args) else {'n': len(exc.args)},
-         'is_exception': isinstance(exc, Exception)}
-  with gin.config_scope('sc'):
+         'is_exception': isinstance(exc, Exception), 'reprs': reprs, 'orig_str': orig_str,
+         'cls_facts': class_facts(exc)}
+  outer = case.get('outer', 'sc')
+  import contextlib
+  with (gin.config_scope(outer) if outer else contextlib.nullcontext()):
     try:
-      fn()
+      fn(*call_args, **call_kwargs)
       res['caught'] = None
     except cls as e:   # the original except clause must catch it
       res['caught_by_original_clause'] = True
-      res.update(_describe(e, exc, cls, gin, orig_str, 'sx' if case['via'] == 'singleton' else 'sc'))
+      res.update(_describe(e, exc, cls, gin, orig_str, _scope_of(case, 0)))
     except BaseException as e:  # pylint: disable=broad-except
       res['caught_by_original_clause'] = False
-      res.update(_describe(e, exc, cls, gin, orig_str, 'sx' if case['via'] == 'singleton' else 'sc'))
+      res.update(_describe(e, exc, cls, gin, orig_str, _scope_of(case, 0)))
   return res
+
+
+def _scope_of(case, k):
+  """the scope active while configurable number k (0 = leaf) of the path runs"""
+  depth = case['depth']
+  nest = case.get('nest') or [None] * depth
+  parts = ['sx'] if case['via'] == 'singleton' else ([case.get('outer', 'sc')] if case.get('outer', 'sc') else [])
+  for j in range(depth - 1, k, -1):
+    if nest[j]:
+      parts.append(nest[j])
+  return '/'.join(parts)
+
+
+def class_facts(exc):
+  """facts about Python, not about Gin: can an (uninitialised) instance of a subclass of the raised class be made"""
+  cls = type(exc)
+  try:
+    sub = type(cls)('P', (cls,), {'__init__': lambda self, *a, **k: None}) if type(cls) is type else None
+  except Exception:  # pylint: disable=broad-except
+    sub = None
+  if sub is None:
+    return None
+  facts = {'name': cls.__name__, 'module': cls.__module__, 'bases': [b.__name__ for b in cls.__mro__]}
+  for key, make in (('newAcceptsArgs', lambda: sub.__new__(sub, *exc.args)), ('bareNewWorks', lambda: BaseException.__new__(sub))):
+    try:
+      make()
+      facts[key] = True
+    except TypeError:
+      facts[key] = False
+    except Exception:  # pylint: disable=broad-except
+      return None
+  return facts
+
+
+def levels_of(case, impl):
+  """the configurables the exception passes, innermost first, as the model wants them"""
+  depth = case['depth']
+  bind = set(case.get('bind') or [])
+  req = case.get('req') or [None] * depth
+  out = []
+  for k in range(depth):
+    is_entry = k == depth - 1
+    how = case.get('entry') if is_entry else None
+    if how == 'pos' and req[k]:
+      how = None
+    bound = k in bind
+    kw = [PARAMS[k]] if (how == 'kw' or (bound and how != 'pos')) else []
+    gin_bound = [PARAMS[k]] if bound else []
+    caller = [PARAMS[k]] if how else []
+    n_args = 1 if how == 'pos' else 0
+    if req[k] == 'pos':
+      n_args, caller = 1, ['q'] + caller
+    elif req[k] == 'kw':
+      kw, caller = ['q'] + kw, ['q'] + caller
+    elif req[k] == 'gin':
+      kw, gin_bound = ['q'] + kw, ['q'] + gin_bound
+    out.append({'name': LEVEL_NAMES[k], 'repr': impl['reprs'][LEVEL_NAMES[k]], 'scope': _scope_of(case, k),
+                'posNames': ['q'] if req[k] else [],     # positional parameters without a default
+                'nArgs': n_args, 'kwNames': kw, 'ginBound': gin_bound, 'callerSupplied': caller,
+                'frames': [LEVEL_NAMES[k + 1], 'helper_' + LEVEL_NAMES[k + 1]] if k + 1 < depth else []})
+  if case['via'] == 'singleton':
+    out.append({'name': 'singleton', 'repr': impl['reprs']['singleton'], 'scope': 'sx', 'posNames': ['constructor'],
+                'nArgs': 0, 'kwNames': ['constructor'], 'ginBound': ['constructor'], 'callerSupplied': [], 'frames': []})
+  return out
 
 
 def _describe(e, exc, cls, gin, orig_str, scope='sc'):
@@ -344,11 +474,12 @@ def _describe(e, exc, cls, gin, orig_str, scope='sc'):
     d['args'] = {'raises': type(ex).__name__}
   frames = [f.name for f in traceback.extract_tb(e.__traceback__)]
   d['tb_has_leaf'] = 'leaf' in frames
-  d['tb_user_frames'] = [n for n in frames if n in ('top', 'helper_top', 'mid', 'helper_mid', 'leaf')]
+  d['tb_user_frames'] = [n for n in frames if n in LEVEL_NAMES or (n.startswith('helper_') and n[7:] in LEVEL_NAMES)]
   try:
     s = str(e)
+    d['str'] = s
     d['str_prefix_ok'] = orig_str is None or s.startswith(orig_str)
-    d['str_names_configurable'] = ("In call to configurable 'leaf'" in s) and (f"in scope '{scope}'" in s)
+    d['str_names_configurable'] = ("In call to configurable 'leaf'" in s) and ((f"in scope '{scope}'" in s) if scope else True)
   except Exception as ex:  # pylint: disable=broad-except
     d['str_prefix_ok'] = False
     d['str_names_configurable'] = 'raises ' + type(ex).__name__
@@ -356,15 +487,42 @@ def _describe(e, exc, cls, gin, orig_str, scope='sc'):
 
 
 def to_driver(case, impl):
-  return {'dom': 'exc', 'orig': [[k, canon(v)] for k, v in sorted(impl['orig'].items())],
-          'is_exception': impl['is_exception']}
+  d = {'dom': 'exc', 'orig': [[k, canon(v)] for k, v in sorted(impl['orig'].items())],
+       'is_exception': impl['is_exception']}
+  if impl.get('cls_facts') and impl.get('orig_str') is not None:
+    missing = case.get('kind') == 'missing'
+    d['chain'] = {'cls': impl['cls_facts'], 'str': impl['orig_str'], 'tb': [] if missing else ['leaf'],
+                  'levels': missing_levels(case, impl) if missing else levels_of(case, impl)}
+  return d
 
 
 def compare(case, impl, model):
-  if case.get('kind') == 'missing':
-    return None
   if 'attrs' not in model:
     return f'driver error: {model}'
+  if case.get('kind') == 'missing':
+    # the text of the TypeError for parameters nobody supplied: Python's own message, the hint, the configurable
+    f = impl['facts']
+    if 'str' in model and f.get('raised') == 'TypeError':
+      if f.get('str') != model['str']:
+        return f'missing-argument TypeError: text {f.get("str")!r} but the model says {model["str"]!r}'
+      if model['same_object'] or not f.get('type_ok'):
+        return f'missing-argument TypeError: model same_object={model["same_object"]}, class as raised: {f.get("type_ok")}'
+    return None
+  if 'same_object' in model and impl.get('caught', 'x') is not None:
+    # the model of the whole call path (Gin/ExcChain.lean): which object arrives, its text, its traceback
+    if bool(impl.get('same_object')) != model['same_object']:
+      return (f'{case["cls"]}: model says the {"original object" if model["same_object"] else "a proxy"} reaches the caller, '
+              f'the implementation delivered {"the original" if impl.get("same_object") else impl.get("type_name")}')
+    if not model['same_object']:
+      if not (impl.get('isinstance') and impl.get('subclass_of_original') and impl.get('caught_by_original_clause')) \
+         or not model['catchable']:
+        return f'{case["cls"]}: not an instance of the original class (model catchable={model["catchable"]})'
+      if not impl.get('type_name_matches'):
+        return f'{case["cls"]}: the class that arrives is named {impl.get("type_name")}, model {model["type_module"]}.{model["type_name"]}'
+    if isinstance(impl.get('str'), str) and impl['str'] != model['str']:
+      return f'{case["cls"]}: text {impl["str"]!r} but the model says {model["str"]!r}'
+    if impl.get('tb_user_frames') != model['tb']:
+      return f'{case["cls"]}: traceback frames {impl.get("tb_user_frames")} but the model says {model["tb"]}'
   if not impl['is_exception']:
     return None
   got = {k: canon(v) for k, v in (impl.get('attrs') or {}).items()}
@@ -410,8 +568,9 @@ def oracle(case, impl):
   if not impl.get('tb_has_leaf'):
     return f'{case["cls"]}: original traceback lost'
   if case['via'] == 'call':
-    want = {1: ['leaf'], 2: ['mid', 'helper_mid', 'leaf'],
-            3: ['top', 'helper_top', 'mid', 'helper_mid', 'leaf']}[case['depth']]
+    want = ['leaf']
+    for k in range(1, case['depth']):
+      want = [LEVEL_NAMES[k], 'helper_' + LEVEL_NAMES[k]] + want
     if impl.get('tb_user_frames') != want:
       return (f'{case["cls"]}: the traceback should lead from the outermost configurable to the raise site through '
               f'{want}, it shows {impl.get("tb_user_frames")}')
